@@ -169,6 +169,107 @@ def sim_script():
     return obs
 
 
+def random_differential(nseq, seed):
+    """random sequences of non-blocking operations against a real pty + pipes and against the simulated
+    kernel; every observable result must agree (bytes typed avoid the tty's special characters)"""
+    import random
+    import time
+    from sim.world import World
+    from sim.kernel import Kernel
+    rng = random.Random(seed)
+    alphabet = [bytes([c]) for c in list(range(0x20, 0x7F)) + [0x1B, 0x09, 0x01, 0x02, 0x05]] + [b"\xc3\xa9", b"\xe2\x82\xac"]
+    bad = []
+    for n in range(nseq):
+        m, sl = os.openpty()
+        pr = [os.pipe(), os.pipe()]
+        for r_, w_ in pr:
+            os.set_blocking(r_, False)
+            os.set_blocking(w_, False)
+        tty.setcbreak(sl, termios.TCSANOW)
+        os.set_blocking(sl, False)
+        world = World({})
+        k = Kernel(world)
+        ss, _t = k.open_tty()
+        spr = [k.pipe(), k.pipe()]
+        for r_, w_ in spr:
+            k.set_blocking(r_, False)
+            k.set_blocking(w_, False)
+        k.setcbreak(ss, termios.TCSANOW)
+        k.set_blocking(ss, False)
+        trace = []
+        try:
+            for step in range(rng.randint(5, 40)):
+                op = rng.choice(("arrive", "arrive", "read", "read", "select", "pwrite", "pread", "toggle", "attrs"))
+                if op == "arrive":
+                    data = b"".join(rng.choice(alphabet) for _ in range(rng.randint(1, 12)))
+                    os.write(m, data)
+                    k.arrive(ss, data)
+                    # delivery from the master to the slave's line discipline is asynchronous in the real
+                    # kernel: wait until everything typed so far can be read (FIONREAD), then compare
+                    want = len(k.fds[ss].inq)
+                    t0 = time.time()
+                    while time.time() - t0 < 2:
+                        import array
+                        buf = array.array("i", [0])
+                        fcntl.ioctl(sl, termios.FIONREAD, buf)
+                        if buf[0] >= want:
+                            break
+                    a = b = None
+                elif op == "read":
+                    cnt = rng.choice((1, 2, 7, 16, 1024))
+                    a = _try(lambda: os.read(sl, cnt))
+                    b = _try(lambda: k.read(ss, cnt))
+                elif op == "select":
+                    order = rng.sample([0, 1, 2], 3)
+                    real_fds = [sl, pr[0][0], pr[1][0]]
+                    sim_fds = [ss, spr[0][0], spr[1][0]]
+                    a = [real_fds.index(x) for x in select.select([real_fds[i] for i in order], [], [], 0)[0]]
+                    b = [sim_fds.index(x) for x in k.select([sim_fds[i] for i in order], [], [], 0)[0]]
+                elif op == "pwrite":
+                    i = rng.randrange(2)
+                    data = bytes(rng.randrange(256) for _ in range(rng.randint(1, 19)))
+                    a = _try(lambda: os.write(pr[i][1], data))
+                    b = _try(lambda: k.write(spr[i][1], data))
+                elif op == "pread":
+                    i = rng.randrange(2)
+                    cnt = rng.choice((1, 19, 1024))
+                    a = _try(lambda: os.read(pr[i][0], cnt))
+                    b = _try(lambda: k.read(spr[i][0], cnt))
+                elif op == "toggle":
+                    blk = rng.random() < 0.5
+                    os.set_blocking(sl, blk)
+                    k.set_blocking(ss, blk)
+                    a = bool(fcntl.fcntl(sl, fcntl.F_GETFL) & os.O_NONBLOCK)
+                    b = bool(k.fcntl(ss, fcntl.F_GETFL) & os.O_NONBLOCK)
+                    if blk:     # never do a blocking read in this test
+                        os.set_blocking(sl, False)
+                        k.set_blocking(ss, False)
+                else:
+                    ra, sa = termios.tcgetattr(sl), k.tcgetattr(ss)
+                    a = (bool(ra[3] & termios.ICANON), bool(ra[3] & termios.ECHO), bool(ra[0] & termios.ICRNL), ra[6][termios.VMIN], ra[6][termios.VTIME])
+                    b = (bool(sa[3] & termios.ICANON), bool(sa[3] & termios.ECHO), bool(sa[0] & termios.ICRNL), sa[6][termios.VMIN], sa[6][termios.VTIME])
+                trace.append((op, a, b))
+                if a != b:
+                    bad.append({"sequence": n, "step": step, "op": op, "real": a, "sim": b, "trace": trace[-6:]})
+                    break
+        finally:
+            for fd in (m, sl, pr[0][0], pr[0][1], pr[1][0], pr[1][1]):
+                try:
+                    os.close(fd)
+                except OSError:
+                    pass
+    return bad
+
+
+def _try(f):
+    try:
+        return f()
+    except BlockingIOError:
+        return "EAGAIN"
+    except OSError as e:
+        return "OSError(%s)" % errno.errorcode.get(e.errno, e.errno)
+
+
 def run(argv):
     sys.path.insert(0, VERIF)
     try:
@@ -187,4 +288,12 @@ def run(argv):
         bad += 1
         print("DIFF number of observations", len(real), len(sim))
     print("kernel comparison: %d observations, %d differences" % (len(real), bad))
-    return 1 if bad else 0
+    nseq = 300
+    for a in argv:
+        if a.startswith("--n="):
+            nseq = int(a.split("=")[1])
+    diffs = random_differential(nseq, 20260928)
+    for dd in diffs[:5]:
+        print("RANDOM DIFFERENTIAL MISMATCH:", dd)
+    print("random differential against the real kernel: %d sequences, %d mismatches" % (nseq, len(diffs)))
+    return 1 if (bad or diffs) else 0
